@@ -24,7 +24,8 @@ from twisted.internet.interfaces import IHalfCloseableProtocol  # noqa: E402
 
 _noisec.entropy = lambda n: stream("noise/%s" % CTX.client).read(n)
 dconnector.set = patches.OSet      # Connector keeps sets of Deferreds / protocols / ports: deterministic iteration
-dmanager.make_side = lambda: SIDES[int(CTX.client[1:])] if (CTX.client or "").startswith("d") else SIDES[0]   # randomness seam
+dconnector.EmptyableSet = patches.OEmptyableSet
+dmanager.make_side = lambda: SIDES[int(CTX.client[1:]) % 2] if (CTX.client or "x")[0] in "dc" else SIDES[0]   # randomness seam
 HOSTS = ["10.1.0.1", "10.1.0.2"]
 SIDES = ["ff" * 8, "00" * 8]       # side 0 is the Leader (higher side string)
 KEY = b"\x33" * 32
